@@ -379,6 +379,7 @@ def build_rich(path, seed):
                                                            data=[("a", 1.0), ("b", 2.0)]))
                 g = A("group", lambda: b.create_group(nm("g"), "grp.t"))
                 A("grouplink", lambda: g.data_arrays.append(da), g, da)
+                A("grouplink", lambda: g.data_frames.append(b.data_frames[0]), g)
                 t = A("tag", lambda: b.create_tag(nm("t"), "tag.t", [0.0, 0.5]))
                 A("tag.extent", lambda: setattr(t, "extent", [1.0, 1.0]), t)
                 A("tag.reference", lambda: t.references.append(da), t, da)
@@ -405,7 +406,7 @@ def build_rich(path, seed):
 
 SKIP_ATTRS = {"file", "parent", "referring_objects", "referring_data_arrays", "referring_tags",
               "referring_multi_tags", "referring_sources", "referring_blocks", "referring_groups"}
-SKIP_CALLS = {"close", "open", "pprint", "print_table", "write_to_csv", "create_new", "copy_section"}
+SKIP_CALLS = {"close", "open", "pprint", "print_table", "write_to_csv", "create_new"}
 EXTRA_STEPS = {"DataArray": [["call", "get_slice", [[0], [1]]]]}
 MAX_PER_CLASS = 3
 
@@ -450,6 +451,16 @@ def resolve(f, path):
     return o
 
 
+def kind_of(v):
+    """the class name; containers are told apart by what they hold (blocks / arrays / tags / properties ... all
+    are `Container`, group members / references all `LinkContainer`)"""
+    cn = type(v).__name__
+    ic = getattr(v, "_itemclass", None)
+    if ic is not None and hasattr(type(v), "__getitem__"):
+        return "%s[%s]" % (cn, getattr(ic, "__name__", "?"))
+    return cn
+
+
 def collect(f):
     """[(path, class name)] of reachable nixio objects: breadth first over public properties and container items"""
     out = [([], "File")]
@@ -481,7 +492,7 @@ def collect(f):
                 continue
             if not _is_nix_obj(v):
                 continue
-            cn = type(v).__name__
+            cn = kind_of(v)
             if count.get(cn, 0) >= MAX_PER_CLASS:
                 continue
             count[cn] = count.get(cn, 0) + 1
@@ -528,6 +539,31 @@ def canon_value(v, depth=0):
     return "<%s>" % type(v).__name__
 
 
+# reads with arguments (compared between a read-only and a writable session): tagged data, dimension
+# conversions, table reads, searches
+READ_CALLS = {
+    "Tag": [("tagged_data", [0]), ("feature_data", [0])],
+    "MultiTag": [("tagged_data", [0, 0]), ("tagged_data", [1, 0]), ("feature_data", [0, 0]), ("feature_data", [1, 0])],
+    "SampledDimension": [("index_of", [0.6]), ("position_at", [1]), ("axis", [3]), ("axis", [2, 1]),
+                         ("range_indices", [0.0, 1.0])],
+    "RangeDimension": [("index_of", [1.5]), ("tick_at", [0]), ("axis", [2]), ("range_indices", [1.0, 2.5])],
+    "SetDimension": [("index_of", [1]), ("range_indices", [0, 1])],
+    "DataFrame": [("read_rows", [[0]]), ("read_rows", [[0, 1]]), ("read_columns", [[0]]), ("read_columns", [None, ["v"]]),
+                  ("read_cell", [[0, 1]]), ("read_cell", [None, "n", 0])],
+    "DataArray": [("get_slice", [[0], [1]]), ("get_slice", [[0, 0], [1, 2]])],
+    "File": [("find_sections", [lambda s: True, 1]), ("find_sections", [lambda s: "sub" in s.name])],
+    "Section": [("find_sections", [lambda s: True, 1]), ("find_related", [lambda s: True])],
+    "Block": [("find_sources", [lambda s: True, 1])],
+    "Source": [("find_sources", [lambda s: True, 1])],
+}
+READ_CALLS = {k: [(n, a) for n, a in v] for k, v in READ_CALLS.items()}
+
+
+class _Enc(json.JSONEncoder):
+    def default(self, o):
+        return "<fn>" if callable(o) else json.JSONEncoder.default(self, o)
+
+
 def snapshot(f, objs):
     """every public property of every collected object, and the parameterless read methods"""
     snap = {}
@@ -556,6 +592,19 @@ def snapshot(f, objs):
                     snap[key0 + "." + name + "()"] = canon_value(r)
                 except Exception as e:
                     snap[key0 + "." + name + "()"] = "raises:" + type(e).__name__
+        for name, args in READ_CALLS.get(type(o).__name__, []):
+            if name not in methods:
+                continue
+            key = "%s.%s(%s)" % (key0, name, json.dumps(args, cls=_Enc))
+            try:
+                r = getattr(o, name)(*args)
+                if inspect.isgenerator(r):
+                    r = list(r)
+                if type(r).__name__ == "DataView":       # tagged / feature data: the values, not the handle
+                    r = ["DataView", canon_value(r[:])]
+                snap[key] = canon_value(r)
+            except Exception as e:
+                snap[key] = "raises:" + type(e).__name__
         if hasattr(type(o), "read_direct") or type(o).__name__ in ("DataArray", "DataView", "DataFrame"):
             try:
                 snap[key0 + "[:]"] = canon_value(o[:])
@@ -567,9 +616,10 @@ def snapshot(f, objs):
 # ---- call candidates -------------------------------------------------------------------
 
 PRIMS = ["zz_val", 2.5, 7, True, [1.0, 2.0, 3.0], ["mV", "s"], ["a", "b"], "mV", None, "tagged", [0.5, 1.0], 0,
-         [[0.0, 0.5], [1.0, 1.0]]]
+         [[0.0, 0.5], [1.0, 1.0]], {"$odml": "int"}, {"$odml": "text"}, {"$odml": "float"}]
 BY_NAME = {
-    "name": ["zz_new"], "type_": ["zz.type"], "array_type": ["zz.type"], "data": [[1.0, 2.0, 3.0], "$DataArray"],
+    "name": ["zz_new"], "type_": ["zz.type"], "array_type": ["zz.type"],
+    "data": [[1.0, 2.0, 3.0], [4, 5], ["x", "y"], "$DataArray"],
     "position": [[0.5, 0.5]], "positions": ["$DataArray"], "extents": ["$DataArray"], "link_type": ["tagged"],
     "ticks": [[1.0, 2.0, 3.0]], "labels": [["a", "b"]], "label": ["zz"], "unit": ["mV"],
     "sampling_interval": [0.5], "offset": [0.25], "time": [1234567890], "index": [0, 1], "axis": [0],
@@ -588,6 +638,7 @@ SPECIAL = {
     "write_column": [{"args": [[5.0, 6.0]], "kw": {"name": "v"}}],
     "link_data_array": [["$DataArray", [0]], ["$DataArray", [-1]]],
     "link_data_frame": [["$DataFrame", 1]],
+    "copy_section": [["$Section", True, False, "zz_copy"], ["$Section", False, True, "zz_copy2"]],
 }
 
 
@@ -612,6 +663,9 @@ def _expand(val, refs):
 def _materialise(f, v):
     if isinstance(v, dict) and "$ref" in v:
         return resolve(f, v["$ref"])
+    if isinstance(v, dict) and "$odml" in v:
+        from nixio.property import OdmlType
+        return OdmlType(v["$odml"])
     if isinstance(v, dict):
         return {k: (str if x == "str" else float if x == "float" else x) for k, x in v.items()}
     if isinstance(v, list):
@@ -1484,12 +1538,16 @@ def spec_outcome(mode, tag, ver, id_, lib):
 
 
 def check_gate(ctx, case):
-    """['gate', mode, tag, [x,y,z], id] — open a crafted complete file and compare with the property text"""
+    """['gate', mode, tag, [x,y,z], id(, [data, meta, created, updated])] — open a crafted file and compare with the
+    property text.  The optional flags make a file that lacks top-level groups / timestamps File.__init__ would
+    add: such a file need not be readable, but a refused or read-only open must still leave its bytes alone"""
     nixio = _nix()
-    _, mode, tag, ver, id_ = case
+    mode, tag, ver, id_ = case[1:5]
+    flags = [bool(x) for x in case[5]] if len(case) > 5 else [True, True, True, True]
+    complete = all(flags)
     lib = _lib_version()
     path = ctx.tmpfile("gate-%d.nix" % ctx.rng.getrandbits(48))
-    craft(path, full_disk(tag, ver, id_))
+    craft(path, full_disk(tag, ver, id_, *flags))
     before = sha_file(path)
     dig0 = dump(path, True)
     want = spec_outcome(mode, tag, ver, id_, lib)
@@ -1510,7 +1568,7 @@ def check_gate(ctx, case):
     try:
         after = sha_file(path)
         site = "nixio/file.py:File._check_header"
-        if got != want:
+        if got != want and not (mode == "r" and not complete and got == "refused"):
             return Failure("open outcome differs from the version/format gating rule", case,
                            {"outcome": got, "error": err}, want, site)
         if got == "refused" and after != before:
@@ -1524,6 +1582,9 @@ def check_gate(ctx, case):
                                "nixio/file.py:map_file_mode")
         if got == "ok" and mode == "a":
             dig1 = dump(path, True)
+            if not complete:     # the groups / timestamps were added: header and content must be what they were
+                dig1 = {"header": dig1["header"], "content": [kv for kv in dig1["content"] if kv[0] != ["#h5"]]}
+                dig0 = {"header": dig0["header"], "content": [kv for kv in dig0["content"] if kv[0] != ["#h5"]]}
             if dig1 != dig0:
                 return Failure("opening read-write changed existing content", case, dig1, dig0,
                                "nixio/file.py:File.__init__")
@@ -1992,6 +2053,13 @@ def oracle(ctx, broken, hints):
     for _ in range(300 if broken else B(ctx, 40, 600)):
         cases.append(["path", rng.choice(list(PATH_CONDS) + ["truncated"] * 6), rng.choice(PATH_MODES),
                       "g%d" % rng.getrandbits(32)])
+    # files lacking what the tail of File.__init__ adds: a refused / read-only open must not add it
+    for m in ("r", "a", "w"):
+        for v in ([lx, ly, lz], [lx, ly, lz + 1], [lx, max(ly - 1, 0), 0], [lx + 1, 0, 0]):
+            for idv in (VALID_ID, None):
+                for tag in ("nix", "hdf"):
+                    cases.append(["gate", m, tag, v, idv, [rng.random() < 0.5 for _ in range(4)]])
+                    cases.append(["gate", m, tag, v, idv, [False, False, False, False]])
     grid = version_grid(lib, broken or not ctx.quick())
     n = 1500 if broken else B(ctx, 250, 3000)
     for _ in range(n):
